@@ -138,6 +138,11 @@ def run_shard(shard, rec, tier, seed):
                 rec.cls("ticks_around_2^31..10^12")
                 judge(rec, case, [case["text"]])
                 continue
+            if i % 17 == 6:
+                case = gen.power_of_two_sustain_chart(rng)
+                rec.cls("sustains_around_powers_of_two_up_to_2^27")
+                judge(rec, case, [case["text"]])
+                continue
             case = gen.chart_or_interactions(rng, i, "hostile" if i % 2 else "realistic", rec, n_tracks=rng.choice([1, 2, 4]),
                                  n_groups=rng.choice([0, 1, 3, 20, 100]) if i % 20 else 2500, n_tempos=rng.choice([1, 3, 8, 30]) if i % 20 else 150,
                                  n_globals=0)
